@@ -202,6 +202,13 @@ func Explore(body func(*X), o Opts) *Section {
 		register(sec)
 		return sec
 	}
+	if os.Getenv("VERIF_STOP_AFTER_FAIL") != "" && os.Getenv("VERIF_CHILD") == "" && unknownFailureSoFar() {
+		// seeded-change runs only (tools/run_seeds.sh): once a section reported a failure that is not a known
+		// finding the verdict (exit 1) is settled; the remaining sections are skipped to save machine time
+		sec.Skipped = true
+		register(sec)
+		return sec
+	}
 	start := time.Now()
 	if child := os.Getenv("VERIF_CHILD"); child != "" {
 		if child != o.Name {
